@@ -177,11 +177,14 @@ class PermutationReciprocalTransformer(BaseReciprocalTransformer):
             return X, None
         self._check_is_fitted()
         if len(y.shape) == 1 or y.dtype in (numpy.str_, numpy.int32, numpy.int64):
-            # permutes classes
+            # permutes classes, the result takes the type of the
+            # permuted values (not the type of y: labels may be strings)
             yp = y.copy().ravel()
             num = numpy.issubdtype(y.dtype, numpy.floating)
+            res = []
             for i in range(len(yp)):
                 if num and numpy.isnan(yp[i]):
+                    res.append(yp[i])
                     continue
                 if yp[i] not in self.permutation_:
                     if self.closest:
@@ -193,7 +196,9 @@ class PermutationReciprocalTransformer(BaseReciprocalTransformer):
                         )
                 else:
                     cl = yp[i]
-                yp[i] = self.permutation_[cl]
+                res.append(self.permutation_[cl])
+            if len(res) > 0:
+                yp = numpy.array(res)
             return X, yp.reshape(y.shape)
         else:
             # y is probababilies or raw score
